@@ -233,7 +233,7 @@ func init() {
 			"(R14.3) no function re-acquires, synchronously and on the same object, a non-reentrant mutex it holds (call graph: static callees, VTA targets, closures handed to library functions); " +
 			"(R14.4) the acquired-while-holding graph has no cycle; (R14.5) the shared routing/registry maps are only touched with their owner mutex held; " +
 			"(R14.6) no indefinitely blocking channel operation happens while a mutex is held, except at triaged sites; (R14.7) no process-exit construct is reachable from a remote request or a daemon goroutine, except at triaged sites; " +
-			"(R14.9) the HTTP relay's watch loop hands a new beacon to parked requests only while holding the lock under which a cancelled request removes (and then closes) its channel: a send after that close panics in a goroutine no server recovers; (R14.8) the nil result of a failed comma-ok map lookup or type assertion is not dereferenced on the path where the lookup failed (such a panic in the aggregator, a callback worker or the sync manager is outside every recovery interceptor). " +
+			"(R14.9) the HTTP relay's watch loop hands a new beacon to parked requests only while holding the lock under which a cancelled request removes (and then closes) its channel: a send after that close panics in a goroutine no server recovers; (R14.10) a store callback that closes a channel is one-shot by its own doing: it returns early on a context that it cancels itself after closing (two beacons dispatched before the callback is unregistered would otherwise close a closed channel on a worker goroutine, outside every recovery interceptor); (R14.8) the nil result of a failed comma-ok map lookup or type assertion is not dereferenced on the path where the lookup failed (such a panic in the aggregator, a callback worker or the sync manager is outside every recovery interceptor). " +
 			"NOT decided: response time in seconds, nil-safety of every dereference (panics on the synchronous gRPC path are contained by R14.1), goroutine interleavings beyond lock order.",
 		RuleText: "one obligation per (rule, function/lock/field/site); distinct = distinct constructs; a construct is non-trivial when it involves a lock, a guarded field, a blocking channel operation or an exit construct",
 		Assumptions: []string{"two objects of one type share a lock identity; reent additionally requires the same access path of the owning object",
@@ -251,6 +251,7 @@ func runC14(c *Ctx) {
 	ruleExit(c, "R14.7")
 	ruleFailedLookupDeref(c, "R14.8")
 	ruleWaiterSendsUnderLock(c, "R14.9")
+	ruleOneShotCallbacks(c, "R14.10")
 }
 
 // R14.1 -------------------------------------------------------------------------------------------
@@ -551,6 +552,30 @@ func ruleExit(c *Ctx, rule string) {
 			}
 		})
 	}
+	// functions that build the handlers handed to the peer-facing gRPC server (custom recovery handlers, interceptors): the
+	// closures they return run on every request (reachSubject follows closure creation)
+	if lf := c.P.Fn("internal/net.NewGRPCListenerForPrivate"); lf != nil {
+		for _, f := range withClosures(lf) {
+			if f != lf {
+				goRoots = append(goRoots, f)
+			}
+		}
+		for _, ci := range callsIn(lf, func(ci ssa.CallInstruction) bool {
+			cal := ci.Common().StaticCallee()
+			if cal == nil || !inModule(fnPkgPath(cal)) || cal.Blocks == nil {
+				return false
+			}
+			res := cal.Signature.Results()
+			for i := 0; i < res.Len(); i++ {
+				if _, isFn := res.At(i).Type().Underlying().(*types.Signature); isFn {
+					return true
+				}
+			}
+			return false
+		}) {
+			goRoots = append(goRoots, ci.Common().StaticCallee())
+		}
+	}
 	pred := reachSubject(c, append(append([]*ssa.Function{}, roots...), goRoots...))
 	c.Analysed["entry_points"] = len(roots)
 	c.Analysed["goroutine_roots"] = len(goRoots)
@@ -704,4 +729,71 @@ func ruleWaiterSendsUnderLock(c *Ctx, rule string) {
 		})
 	}
 	c.Floor(rule, "sends to parked HTTP requests", n, 1)
+}
+
+// R14.10: callbacks registered on the beacon store run on worker goroutines, possibly more than once before they manage to
+// unregister themselves. One that closes a channel must make its second run a no-op itself: an early return on a context
+// created for the request whose cancel function the callback calls once it has closed the channel.
+func ruleOneShotCallbacks(c *Ctx, rule string) {
+	c.ranRules[rule] = true
+	n := 0
+	for _, fn := range c.P.SubjectFns() {
+		if isControlFn(fn) || fn.Parent() != nil || !strings.HasPrefix(fnPkgPath(fn), pkCore) {
+			continue
+		}
+		for _, ci := range callsIn(fn, func(ci ssa.CallInstruction) bool { return ci.Common().IsInvoke() && ci.Common().Method.Name() == "AddCallback" }) {
+			for _, cb := range funcValuesOf(ci.Common().Args[1]) {
+				var closes []ssa.Instruction
+				forEachInstr(cb, func(_ *ssa.BasicBlock, _ int, in ssa.Instruction) {
+					if call, ok := in.(*ssa.Call); ok {
+						if b, isB := call.Common().Value.(*ssa.Builtin); isB && b.Name() == "close" {
+							closes = append(closes, in)
+						}
+					}
+				})
+				if len(closes) == 0 {
+					continue
+				}
+				n++
+				// the guard: an Err() check on a context made by WithCancel in the enclosing function ...
+				var mk *ssa.Call
+				guarded := false
+				forEachInstr(cb, func(_ *ssa.BasicBlock, _ int, in ssa.Instruction) {
+					call, ok := in.(*ssa.Call)
+					if !ok || !call.Common().IsInvoke() || call.Common().Method.Name() != "Err" {
+						return
+					}
+					if ex, isEx := canonValue(call.Common().Value).(*ssa.Extract); isEx && ex.Index == 0 {
+						if w, isW := ex.Tuple.(*ssa.Call); isW && calleeName(w) == "context.WithCancel" {
+							all := true
+							for _, cl := range closes {
+								if !dominatesInstr(in, cl) {
+									all = false
+								}
+							}
+							if all {
+								mk, guarded = w, true
+							}
+						}
+					}
+				})
+				// ... that the callback cancels itself
+				cancels := false
+				if mk != nil {
+					forEachInstr(cb, func(_ *ssa.BasicBlock, _ int, in ssa.Instruction) {
+						call, ok := in.(*ssa.Call)
+						if !ok || call.Common().IsInvoke() || call.Common().StaticCallee() != nil {
+							return
+						}
+						if ex, isEx := canonValue(call.Common().Value).(*ssa.Extract); isEx && ex.Index == 1 && ex.Tuple == ssa.Value(mk) {
+							cancels = true
+						}
+					})
+				}
+				c.Ok(rule, fnShort(fn)+" registers a callback that closes a channel", shortPos(c.P, ci), guarded && cancels,
+					fmt.Sprintf("early return on a request context made by WithCancel: %v; the callback cancels that context itself: %v", guarded, cancels))
+			}
+		}
+	}
+	c.Floor(rule, "store callbacks that close a channel", n, 1)
 }
